@@ -631,6 +631,23 @@ var hProgOps = append(prog.Ops(prog.AllEditKinds...), "undo", "redo", "rootclear
 var hExtOps = []string{"xprim", "xprim", "xprim", "xcnt", "xcinc", "xcinc", "xarrc", "xarrc", "xarrc", "xnest", "xnest", "xnest", "xnest",
 	"xtext", "xtext", "xtree", "xtree", "xyson", "xyson"}
 
+func genHStep(pool []string) *rapid.Generator[HStep] {
+	return rapid.Custom(func(t *rapid.T) HStep {
+		s := HStep{
+			W:  rapid.IntRange(0, 1).Draw(t, "w"),
+			Op: rapid.SampledFrom(pool).Draw(t, "op"),
+			A:  rapid.IntRange(0, 15).Draw(t, "a"),
+			B:  rapid.IntRange(0, 15).Draw(t, "b"),
+			C:  rapid.IntRange(0, 44).Draw(t, "c"),
+		}
+		if s.Op == "xyson" {
+			y := genValue(t, 2)
+			s.Y = &y
+		}
+		return s
+	})
+}
+
 func genHistory(maxSteps int) *rapid.Generator[HCase] {
 	pool := append([]string{}, hExtOps...)
 	pool = append(pool, hExtOps...)
@@ -642,20 +659,7 @@ func genHistory(maxSteps int) *rapid.Generator[HCase] {
 	return rapid.Custom(func(t *rapid.T) HCase {
 		curCtx = genCtx{sharp: rapid.IntRange(0, 2).Draw(t, "sharp") == 0}
 		n := rapid.IntRange(3, maxSteps).Draw(t, "len")
-		steps := rapid.SliceOfN(rapid.Custom(func(t *rapid.T) HStep {
-			s := HStep{
-				W:  rapid.IntRange(0, 1).Draw(t, "w"),
-				Op: rapid.SampledFrom(pool).Draw(t, "op"),
-				A:  rapid.IntRange(0, 15).Draw(t, "a"),
-				B:  rapid.IntRange(0, 15).Draw(t, "b"),
-				C:  rapid.IntRange(0, 44).Draw(t, "c"),
-			}
-			if s.Op == "xyson" {
-				y := genValue(t, 2)
-				s.Y = &y
-			}
-			return s
-		}), n, n).Draw(t, "steps")
+		steps := rapid.SliceOfN(genHStep(pool), n, n).Draw(t, "steps")
 		return HCase{Steps: steps}
 	})
 }
